@@ -1,0 +1,59 @@
+//go:build verif
+
+package lsm
+
+import (
+	"fmt"
+
+	"github.com/feichai0017/NoKV/utils"
+)
+
+// Accessors for the corruption checks (build tag "verif" only): a table environment with the
+// block cache ENABLED, the two read-ahead paths of a table, and a barrier on the block cache.
+
+// VerifNewTableEnvCached is VerifNewTableEnv with a block cache of blockCacheSize entries.
+func VerifNewTableEnvCached(dir string, blockSize int, bloomFP float64, blockCacheSize int) *VerifTableEnv {
+	opt := &Options{
+		WorkDir:            dir,
+		MemTableSize:       1 << 20,
+		SSTableMaxSz:       1 << 26,
+		BlockSize:          blockSize,
+		BloomFalsePositive: bloomFP,
+		BlockCacheSize:     blockCacheSize,
+	}
+	return &VerifTableEnv{lm: &levelManager{opt: opt, cache: newCache(opt)}}
+}
+
+// VerifCacheWait blocks until every pending insertion into the block cache is visible.
+func (env *VerifTableEnv) VerifCacheWait() {
+	if env == nil || env.lm == nil || env.lm.cache == nil || env.lm.cache.blocks == nil || env.lm.cache.blocks.rc == nil {
+		return
+	}
+	env.lm.cache.blocks.rc.Wait()
+}
+
+// VerifPrefetchKey runs the hot-key prefetch path (table.prefetchBlockForKey).
+func (s *VerifSST) VerifPrefetchKey(key []byte) (ok bool, err error) {
+	defer func() {
+		if r := recover(); r != nil {
+			err = fmt.Errorf("panic: %v", r)
+		}
+	}()
+	return s.t.prefetchBlockForKey(key), nil
+}
+
+// VerifPrefetchIterate runs a forward table iterator with read-ahead (PrefetchBlocks > 0)
+// over the whole table and returns what it delivered.
+func (s *VerifSST) VerifPrefetchIterate(prefetchBlocks int) (out []VerifEntry, err error) {
+	defer func() {
+		if r := recover(); r != nil {
+			err = fmt.Errorf("panic: %v", r)
+		}
+	}()
+	it := s.t.NewIterator(&utils.Options{IsAsc: true, PrefetchBlocks: prefetchBlocks})
+	defer func() { _ = it.Close() }()
+	for it.Rewind(); it.Valid(); it.Next() {
+		out = append(out, verifEntryOf(it.Item().Entry()))
+	}
+	return out, nil
+}
